@@ -167,6 +167,19 @@ class Dumper:
         out[f"{loc}#attrs"] = {"py": repr(list(var.attrs))}
 
 
+def definitional_equalities(path):
+    """engine-named constants (quotients, ceilings) = their defining applications, as hypotheses for comparisons"""
+    from .ops import FDIV
+
+    out = []
+    for F, a, b in getattr(path, "_fdiv_memo", {}).values():
+        out.append(F == FDIV(a, b))
+    CEIL = z3.Function("ceil_div", z3.IntSort(), z3.IntSort(), z3.IntSort())
+    for K, a, b in getattr(path, "_ceil_memo", {}).values():
+        out.append(K == CEIL(a, b))
+    return out
+
+
 def dump_result(it, v):
     """dump of an arbitrary result: Group -> flat locations; tuple/list/dict of results -> prefixed"""
     d = Dumper(it)
